@@ -199,14 +199,14 @@ theorem xretype_commutes {d : ClassDiagram} (wf : WF d) (c a dt : Nat) (comp : N
           apply xspec_ext
           · rfl
           · rfl
-          · show ((d.classes.map (rtG c a dt)).filter (fun k => containedIn d.containers comp k.parent)).map
+          · show ((d.classes.map (rtG c a dt)).filter (fun k => containedIn d.containers d.pkgrefs comp k.parent)).map
                 (xclassOf { d with classes := d.classes.map (rtG c a dt) }) = _
             rw [List.filter_map, List.map_map]
-            have hpar : ((fun (k : Class) => containedIn d.containers comp k.parent) ∘ rtG c a dt) =
-                (fun (k : Class) => containedIn d.containers comp k.parent) := by
+            have hpar : ((fun (k : Class) => containedIn d.containers d.pkgrefs comp k.parent) ∘ rtG c a dt) =
+                (fun (k : Class) => containedIn d.containers d.pkgrefs comp k.parent) := by
               funext k; simp only [Function.comp]; unfold rtG; split <;> rfl
             rw [hpar]
-            show _ = ((d.classes.filter (fun k => containedIn d.containers comp k.parent)).map (xclassOf d)).map _
+            show _ = ((d.classes.filter (fun k => containedIn d.containers d.pkgrefs comp k.parent)).map (xclassOf d)).map _
             rw [List.map_map]
             apply List.map_congr_left
             intro k hk
@@ -344,14 +344,14 @@ theorem xaddAttr_commutes (c : Nat) (x : Attr) (comp : Nat) (fresh : FreshAttr d
     have hclasses : (xsdSpecChained { d with classes := d.classes.map (adG c x) } comp).classes =
         (xsdSpecChained d comp).classes.map (fun s =>
           if s.kl == kc.kl then { s with attrs := s.attrs ++ (xattr d x).toList } else s) := by
-      show ((d.classes.map (adG c x)).filter (fun k => containedIn d.containers comp k.parent)).map
+      show ((d.classes.map (adG c x)).filter (fun k => containedIn d.containers d.pkgrefs comp k.parent)).map
           (xclassOf { d with classes := d.classes.map (adG c x) }) = _
       rw [List.filter_map, List.map_map]
-      have hpar : ((fun (k : Class) => containedIn d.containers comp k.parent) ∘ adG c x) =
-          (fun (k : Class) => containedIn d.containers comp k.parent) := by
+      have hpar : ((fun (k : Class) => containedIn d.containers d.pkgrefs comp k.parent) ∘ adG c x) =
+          (fun (k : Class) => containedIn d.containers d.pkgrefs comp k.parent) := by
         funext k; simp only [Function.comp]; unfold adG; split <;> rfl
       rw [hpar]
-      show _ = ((d.classes.filter (fun k => containedIn d.containers comp k.parent)).map (xclassOf d)).map _
+      show _ = ((d.classes.filter (fun k => containedIn d.containers d.pkgrefs comp k.parent)).map (xclassOf d)).map _
       rw [List.map_map]
       apply List.map_congr_left
       intro k hk
@@ -465,7 +465,7 @@ theorem en_xattr (a : Attr) : xattr { d with dts := d.dts.map (enG t F) } a = xa
 
 theorem en_classes (comp : Nat) :
     (xsdSpecChained { d with dts := d.dts.map (enG t F) } comp).classes = (xsdSpecChained d comp).classes := by
-  show (d.classes.filter (fun k => containedIn d.containers comp k.parent)).map
+  show (d.classes.filter (fun k => containedIn d.containers d.pkgrefs comp k.parent)).map
       (xclassOf { d with dts := d.dts.map (enG t F) }) = _
   apply List.map_congr_left
   intro k _
@@ -548,18 +548,18 @@ theorem enumEdit_commutes (xwf : XWF d) (comp : Nat) :
       apply xspec_ext
       · show ((d.dts.map (enG t F)).filter (fun x => isGlobal d.containers x.parent)).filterMap
             (xtypeOf (d.dts.map (enG t F))) ++
-          ((d.dts.map (enG t F)).filter (fun x => containedIn d.containers comp x.parent)).filterMap
+          ((d.dts.map (enG t F)).filter (fun x => containedIn d.containers d.pkgrefs comp x.parent && !isGlobal d.containers x.parent)).filterMap
             (xtypeOf (d.dts.map (enG t F))) = ((xsdSpecChained d comp).types).map (XType.setEnum tx.name (F es0))
         rw [List.filter_map, List.filter_map, List.filterMap_map, List.filterMap_map]
         have hp1 : ((fun (x : DataType) => isGlobal d.containers x.parent) ∘ enG t F) =
             (fun (x : DataType) => isGlobal d.containers x.parent) := by
           funext x; simp only [Function.comp, enG_parent]
-        have hp2 : ((fun (x : DataType) => containedIn d.containers comp x.parent) ∘ enG t F) =
-            (fun (x : DataType) => containedIn d.containers comp x.parent) := by
+        have hp2 : ((fun (x : DataType) => containedIn d.containers d.pkgrefs comp x.parent && !isGlobal d.containers x.parent) ∘ enG t F) =
+            (fun (x : DataType) => containedIn d.containers d.pkgrefs comp x.parent && !isGlobal d.containers x.parent) := by
           funext x; simp only [Function.comp, enG_parent]
         rw [hp1, hp2]
         show _ = ((d.dts.filter (fun x => isGlobal d.containers x.parent)).filterMap (xtypeOf d.dts) ++
-          (d.dts.filter (fun x => containedIn d.containers comp x.parent)).filterMap (xtypeOf d.dts)).map _
+          (d.dts.filter (fun x => containedIn d.containers d.pkgrefs comp x.parent && !isGlobal d.containers x.parent)).filterMap (xtypeOf d.dts)).map _
         rw [List.map_append, List.map_filterMap, List.map_filterMap]
         congr 1
         · apply filterMap_congr'
@@ -621,8 +621,10 @@ structure FreshType (d : ClassDiagram) (t : DataType) : Prop where
   noSelf : t.kind ≠ .user t.id
   noAttr : ∀ k ∈ d.classes, ∀ y ∈ k.attrs, y.kind ≠ .base t.id ∧ y.kind ≠ .derived t.id
 
+/-- WITHOUT package references a global element is in no component (with them it can be: `is_global` does not follow
+    EP_PKGREF rows, `is_contained_in` does) -/
 theorem global_not_contained (cs : List Container) (root : Nat) (f : Nat) (p : Parent)
-    (h : globalFuel cs f p = true) : containedFuel cs root f p = false := by
+    (h : globalFuel cs f p = true) : containedFuel cs [] root f p = false := by
   induction f generalizing p with
   | zero => rfl
   | succ f ih =>
@@ -638,6 +640,7 @@ theorem global_not_contained (cs : List Container) (root : Nat) (f : Nat) (p : P
       | none => rfl
       | some k =>
         rw [hf] at h
+        simp only [List.any_nil, Bool.or_false]
         exact ih k.parent h
 
 theorem findDt_append_ne (dts : List DataType) (t : DataType) (i : Nat) (h : i ≠ t.id) :
@@ -736,7 +739,7 @@ theorem xaddType_commutes (chain : DtChainOk d.dts) (fr : FreshType d t) (comp :
     fun x hx => at_xtypeOf x (fr.noBase x hx)
   have hxt : xtypeOf (d.dts ++ [t]) t = xtypeOf d.dts t := at_xtypeOf t fr.noSelf
   have hclasses : (xsdSpecChained { d with dts := d.dts ++ [t] } comp).classes = (xsdSpecChained d comp).classes := by
-    show (d.classes.filter (fun k => containedIn d.containers comp k.parent)).map
+    show (d.classes.filter (fun k => containedIn d.containers d.pkgrefs comp k.parent)).map
         (xclassOf { d with dts := d.dts ++ [t] }) = _
     apply List.map_congr_left
     intro k hk
@@ -748,14 +751,15 @@ theorem xaddType_commutes (chain : DtChainOk d.dts) (fr : FreshType d t) (comp :
   have htypes : (xsdSpecChained { d with dts := d.dts ++ [t] } comp).types =
       ((d.dts.filter (fun x => isGlobal d.containers x.parent)).filterMap (xtypeOf d.dts) ++
         (if isGlobal d.containers t.parent then (xtypeOf d.dts t).toList else [])) ++
-      ((d.dts.filter (fun x => containedIn d.containers comp x.parent)).filterMap (xtypeOf d.dts) ++
-        (if containedIn d.containers comp t.parent then (xtypeOf d.dts t).toList else [])) := by
+      ((d.dts.filter (fun x => containedIn d.containers d.pkgrefs comp x.parent && !isGlobal d.containers x.parent)).filterMap (xtypeOf d.dts) ++
+        (if (containedIn d.containers d.pkgrefs comp t.parent && !isGlobal d.containers t.parent) = true
+          then (xtypeOf d.dts t).toList else [])) := by
     show ((d.dts ++ [t]).filter (fun x => isGlobal d.containers x.parent)).filterMap (xtypeOf (d.dts ++ [t])) ++
-      ((d.dts ++ [t]).filter (fun x => containedIn d.containers comp x.parent)).filterMap (xtypeOf (d.dts ++ [t])) = _
+      ((d.dts ++ [t]).filter (fun x => containedIn d.containers d.pkgrefs comp x.parent && !isGlobal d.containers x.parent)).filterMap (xtypeOf (d.dts ++ [t])) = _
     simp only [List.filter_append, List.filterMap_append]
     rw [filterMap_congr' (l := d.dts.filter (fun x => isGlobal d.containers x.parent))
           (fun x hx' => hxall x (List.mem_filter.mp hx').1),
-        filterMap_congr' (l := d.dts.filter (fun x => containedIn d.containers comp x.parent))
+        filterMap_congr' (l := d.dts.filter (fun x => containedIn d.containers d.pkgrefs comp x.parent && !isGlobal d.containers x.parent))
           (fun x hx' => hxall x (List.mem_filter.mp hx').1)]
     congr 1
     · congr 1
@@ -783,37 +787,38 @@ theorem xaddType_commutes (chain : DtChainOk d.dts) (fr : FreshType d t) (comp :
   | some x =>
     dsimp only
     by_cases hg : isGlobal d.containers t.parent = true
-    · have hnc : containedIn d.containers comp t.parent = false :=
-        global_not_contained d.containers comp _ _ hg
-      simp only [hg, if_true]
+    · simp only [hg, if_true]
       apply xspec_ext
-      · rw [htypes, hxo, hg, hnc]
+      · rw [htypes, hxo, hg]
+        simp only [Bool.not_true, Bool.and_false, Bool.false_eq_true, if_false]
         show _ = insertAt _ x ((d.dts.filter (fun x => isGlobal d.containers x.parent)).filterMap (xtypeOf d.dts) ++
-          (d.dts.filter (fun x => containedIn d.containers comp x.parent)).filterMap (xtypeOf d.dts))
+          (d.dts.filter (fun x => containedIn d.containers d.pkgrefs comp x.parent && !isGlobal d.containers x.parent)).filterMap (xtypeOf d.dts))
         rw [insertAt_length]
         simp
       · rfl
       · exact hclasses
     · have hgf : isGlobal d.containers t.parent = false := by simpa using hg
       simp only [hgf, Bool.false_eq_true, if_false]
-      by_cases hcn : containedIn d.containers comp t.parent = true
+      by_cases hcn : containedIn d.containers d.pkgrefs comp t.parent = true
       · simp only [hcn, if_true]
         apply xspec_ext
         · rw [htypes, hxo, hgf, hcn]
+          simp only [Bool.not_false, Bool.and_true, if_true]
           show _ = insertAt _ x ((d.dts.filter (fun x => isGlobal d.containers x.parent)).filterMap (xtypeOf d.dts) ++
-            (d.dts.filter (fun x => containedIn d.containers comp x.parent)).filterMap (xtypeOf d.dts))
+            (d.dts.filter (fun x => containedIn d.containers d.pkgrefs comp x.parent && !isGlobal d.containers x.parent)).filterMap (xtypeOf d.dts))
           rw [← List.length_append]
           have := insertAt_length x ((d.dts.filter (fun x => isGlobal d.containers x.parent)).filterMap (xtypeOf d.dts) ++
-            (d.dts.filter (fun x => containedIn d.containers comp x.parent)).filterMap (xtypeOf d.dts)) []
+            (d.dts.filter (fun x => containedIn d.containers d.pkgrefs comp x.parent && !isGlobal d.containers x.parent)).filterMap (xtypeOf d.dts)) []
           rw [List.append_nil] at this
           rw [this]
           simp
         · rfl
         · exact hclasses
-      · have hcf : containedIn d.containers comp t.parent = false := by simpa using hcn
+      · have hcf : containedIn d.containers d.pkgrefs comp t.parent = false := by simpa using hcn
         simp only [hcf, Bool.false_eq_true, if_false]
         apply xspec_ext
         · rw [htypes, hgf, hcf]
+          simp only [Bool.false_and, Bool.false_eq_true, if_false]
           show _ = (xsdSpecChained d comp).types
           simp [xsdSpecChained]
         · rfl
